@@ -42,6 +42,16 @@ def dec2x (mask b : Nat) (x : Int) : Except EErr (List Char) :=
 def withPlaces (places : Int) (s : List Char) : Except EErr (List Char) :=
   if places ≥ s.length ∧ places ≤ 10 then .ok (List.replicate (places.toNat - s.length) '0' ++ s) else .error .num
 
+/-- `_dec2x(x, places, base)` with `places` given (an integer, after `_parseDEC`): `x.zfill(places)` when
+`10 >= places >= (0 if x < 0 else len(digits))` — a negative number keeps its ten digits whatever `places` says -/
+def dec2xP (mask b : Nat) (x places : Int) : Except EErr (List Char) :=
+  match dec2x mask b x with
+  | .error e => .error e
+  | .ok s =>
+    if places ≤ 10 ∧ (if x < 0 then 0 else (s.length : Int)) ≤ places then
+      .ok (List.replicate (places.toNat - s.length) '0' ++ s)
+    else .error .num
+
 /-- `_x2dec(x, base)` on a digit string of at most 10 characters (the filter `_parseX`):
 `(v & ~mask) - (mask & v)`; `mask` is a power of two and `v < 2 * mask`, so the bit test is
 a quotient parity test -/
